@@ -1225,7 +1225,10 @@ def sstep_case(ctx, case):
     sig = f"{kind}/sstep/{fn}"
     resv = res.detach().to(torch.double).numpy()
     ok_calls = len(rec.calls) == 1 and rec.calls[0]["p"].shape == (B, m)
-    ctx.oracle(f"{tag}: exactly one bernoulli call on a B x m tensor", ok_calls, case, sig=sig + "/calls", theorem="C05_sample_out_identity")
+    # HOW the draw is made (one torch.bernoulli call on the conditional, thresholded uniforms, the complementary event, ...) is not
+    # constrained by the property: the scripted replay below applies only to the first form - ONE auxiliary point says whether it does
+    ctx.point(f"{tag}: the draw is one torch.bernoulli call on a B x m tensor (scripted replay applicable)", "aux", bool(ok_calls), True, case,
+              exact=True, sig=sig + "/call-pattern", theorem="C05_sample_out_identity")
     ctx.oracle(f"{tag}: the returned sample is a 0/1 array of shape B x m", tuple(resv.shape) == (B, m) and bool(np.all((resv == 0) | (resv == 1))), case,
                detail={"result": resv.tolist()}, sig=sig + "/values01", theorem="C05_sample_out_identity, C05_values_shape")
     inputs_ok = all(np.array_equal(t.numpy(), ref) for t, ref in zip(targs, [x] + ([y] if y is not None else [])))
@@ -1235,8 +1238,11 @@ def sstep_case(ctx, case):
     P, D = rec.calls[0]["p"], rec.calls[0]["draw"]
     # the property's "drawn from its exact conditional": the probabilities presented are the public conditional of the very inputs
     pub = getattr(rbm, "prob_" + fn)(*[torch.from_numpy(z.copy()) for z in [x] + ([y] if y is not None else [])]).detach().numpy()
-    ctx.oracle(f"{tag}: probabilities presented to the sampler == prob_{fn} of the inputs", bool(np.allclose(P, pub, rtol=1e-12, atol=1e-15)), case,
-               sig=sig + "/presented", theorem="C05_sample_step_law")
+    presented_ok = bool(np.allclose(P, pub, rtol=1e-12, atol=1e-15))
+    ctx.point(f"{tag}: probabilities presented to torch.bernoulli == prob_{fn} of the inputs", "aux", presented_ok, True, case, exact=True,
+              sig=sig + "/presented", theorem="C05_sample_step_law")
+    if not presented_ok:
+        return   # another (possibly equivalent) parametrisation of the draw: the scripted replay does not apply
     if ctx.driver is not None:
         for b in range(B):
             req = {"kind": mkind(kind), "fn": fn, "n": n, "h": h, "a": a, "p": qc.pbits(am), "x": bits(x[b]), "fresh": 10,
@@ -1246,11 +1252,11 @@ def sstep_case(ctx, case):
             mo = ctx.driver.call("c05.sample_step", **req)
             cs = dict(case, row=b)
             if mo.get("short"):
-                ctx.point(f"{tag}: replay consumes the recording", "property", len(req["draws"]), "model needs more draws", cs, exact=True, sig=sig + "/count",
+                ctx.point(f"{tag}: replay consumes the recording", "aux", len(req["draws"]), "model needs more draws", cs, exact=True, sig=sig + "/count",
                           theorem="C05_sample_step_law")
                 continue
-            ctx.point(f"{tag}: probabilities presented", "property", P[b], unbits(mo["probs"]), cs, sig=sig + "/probs", theorem="C05_sample_step_law + " + TH["cond"])
-            ctx.point(f"{tag}: returned sample", "property", bits(resv[b]), mo["result"], cs, exact=True, sig=sig + "/result",
+            ctx.point(f"{tag}: probabilities presented", "aux", P[b], unbits(mo["probs"]), cs, sig=sig + "/probs", theorem="C05_sample_step_law + " + TH["cond"])
+            ctx.point(f"{tag}: returned sample", "aux", bits(resv[b]), mo["result"], cs, exact=True, sig=sig + "/result",
                       theorem="C05_sample_out_identity, C05_sample_step_law")
             # the out= buffer contract of the one-step samplers is not in the property text (only gibbs_steps' overwrite is): auxiliary
             impl_buf = [res is out, bits(out.numpy()[b])] if with_out else [False, None]
